@@ -4,7 +4,7 @@
 def _race_streams(tier):
     # 258 = 2 serving calls x (9 single operations + 36 pairs + 84 triples); every round uses fresh offsets
     n = 258 * (4 if tier == "quick" else 60)
-    return [("race", ["-n", str(n)])]
+    return [("race", ["-n", str(n)]), ("regguard", ["-n", str(300 if tier == "quick" else 6000)])]
 
 
 def _cancel_streams(tier):
@@ -17,7 +17,7 @@ PROPS = {
     "C16": {
         "streams": _race_streams,
         "race_binary": True,
-        "rule": "every single operation, pair and triple of {Shutdown, GetListener, RegisterInterface attempts, client traffic on k connections, cancelling the service context under open connections, cancelled Read / ReadBytes / Write on a connection used by one goroutine, reuse after cancel} concurrently with one serving call (Listen or DoListen; unix-abstract or tcp; with or without accept timeout), randomised start offsets and repetition counts, each scenario in its own process under the Go race detector; non-trivial = at least two operations besides the serving call",
+        "rule": "(race) every single operation, pair and triple of {Shutdown, GetListener, RegisterInterface attempts, client traffic on k connections, cancelling the service context under open connections, cancelled Read / ReadBytes / Write on a connection used by one goroutine, reuse after cancel} concurrently with one serving call (Listen or DoListen; unix-abstract or tcp; with or without accept timeout), randomised start offsets and repetition counts, each scenario in its own process under the Go race detector; non-trivial = at least two operations besides the serving call; (regguard) deterministic histories over {start, connect, disconnect, Shutdown, RegisterInterface attempt} with (running, conncounter) read at each attempt, compared with the guard of the counter system",
         "trusted_base": [
             "the go/ast extractor extract/access.go (lock state by a structured walk; aliasing of *Service and accesses through copied values are not tracked) - cross-checked by the race detector runs of every check",
             "the happens-before model of lean/Varlink/Race.lean (one mutex, spawn, join, channels) is a definition in Lean, not Go's implementation of its memory model",
